@@ -25,9 +25,11 @@ def run_impl(case):
         n = 1            # the single-initiator arbiter (purely combinational) a little more often
     elif x828 < 0.14:
         n = 7 + int((x828 - 0.08) / 0.06 * 7)      # and larger ones: 7..13 initiators (two-digit indices)
+    elif x828 < 0.17:
+        n = (17, 20, 33, 34, 40)[int((x828 - 0.14) / 0.03 * 5)]      # … and beyond 16 / 32
+    aw = 8 if n <= 16 else 10          # the owner is recognised by the address tag adr[4:]
     dw = rnd.choice([8, 16, 32, 64])
     gran = rnd.choice([g for g in (8, 16, 32, 64) if g <= dw])
-    aw = 8
     bfeat = set(f for f in F if rnd.random() < .5)
     rnd2 = lib.rng_for(case["seed"], case["idx"], 818)      # history variations, own stream
     # the feature set may be spelled with strings or with Feature members, as a set, a list or a tuple
